@@ -354,6 +354,9 @@ type Profile struct {
 	Crops        []string
 	OutIntervals []int
 	TillDeep     bool
+	PolarProb    float64 // probability of a latitude beyond the polar circles
+	ZeroRadProb  float64 // probability of a weather series without measured radiation (sunshine hours instead)
+	Permanent    float64 // probability of a block of permanent-crop cuts (grass / alfalfa) early in the rotation
 }
 
 func defaultProfile() Profile {
@@ -363,7 +366,7 @@ func defaultProfile() Profile {
 		FertMax: 6, TillMax: 4, IrrMax: 4, Layouts: []int{0, 1, 1, 2}, ETMethods: []int{1, 2, 3, 3, 4, 5},
 		LeachBottom: true, Measurement: 0.2, Inject: 0.3, AutoProb: 0, MinLayers: 1,
 		DateFormats: []int{0, 1, 1, 2, 3}, NoneValues: 0.2, StartOffset: 0.2, ColdClimate: 0.25,
-		OutIntervals: []int{1}, PreStartEv: 0.1, SameDayEv: 0.1,
+		OutIntervals: []int{1}, PreStartEv: 0.1, SameDayEv: 0.1, PolarProb: 0.03, ZeroRadProb: 0.2,
 	}
 }
 
@@ -382,6 +385,8 @@ func profileFor(prop string) Profile {
 		p.ShallowGW = 0.5
 	case "C08":
 		p.ColdClimate = 0.4
+		p.PolarProb = 0.25
+		p.ZeroRadProb = 0.4
 	case "C19":
 		p.ColdClimate = 0.4
 		p.Inject = 0.5
@@ -410,6 +415,7 @@ func profileFor(prop string) Profile {
 		p.Years = [2]int{2, 4}
 	case "C09":
 		p.Years = [2]int{2, 3}
+		p.Permanent = 0.15
 	case "C20", "C15":
 		p.GWModes = []int{0, 2, 2}
 		p.ShallowGW = 0.7
@@ -527,6 +533,12 @@ func genWithProfile(prop string, seed uint64, idx int, r *Rng, p Profile) *Scena
 	sc.Latitude = float64(r.Range(-400, 680)) / 10
 	if r.Bool(0.15) {
 		sc.Latitude = float64(r.Range(-700, 800)) / 10
+	}
+	if r.Bool(p.PolarProb) {
+		sc.Latitude = float64(r.Range(666, 800)) / 10 // polar day and polar night
+		if r.Bool(0.3) {
+			sc.Latitude = -float64(r.Range(666, 700)) / 10
+		}
 	}
 	sc.Altitude = float64(r.Range(0, 1500))
 	sc.CoastDist = float64(r.Range(0, 300))
@@ -747,7 +759,7 @@ func genWeather(sc *Scenario, r *Rng, p Profile) {
 	if w.Layout == 2 && r.Bool(0.5) {
 		w.CO2InFile = float64(r.Range(330, 700))
 	}
-	zeroRad := r.Bool(0.2)
+	zeroRad := r.Bool(p.ZeroRadProb)
 	if zeroRad {
 		w.HasSun = true
 	}
@@ -969,6 +981,17 @@ func genRotation(sc *Scenario, r *Rng, p Profile) {
 	sc.Rotation = append(sc.Rotation, RotEntry{Crop: pre.Code, Sow: sc.Start.AddDays(-120), Harvest: sc.Start,
 		Rex: pickI(r, []int{0, 100, 80, 50}), Yld: r.Range(0, 90)})
 	cur := sc.Start
+	if r.Bool(p.Permanent) {
+		// a permanent crop (grass / alfalfa) grown as 1-3 consecutive cuts before the annual crops
+		code := pickS(r, []string{"GR", "AA"})
+		sow := nextDOY(cur.AddDays(r.Range(4, 30)), r.Range(70, 110))
+		for k, cuts := 0, r.Range(1, 3); k < cuts; k++ {
+			harv := sow.AddDays(r.Range(50, 95))
+			sc.Rotation = append(sc.Rotation, RotEntry{Crop: code, Sow: sow, Harvest: harv, Rex: pickI(r, []int{0, 100})})
+			cur = harv
+			sow = harv.AddDays(1)
+		}
+	}
 	for len(sc.Rotation) < 12 {
 		ci := pickCrop()
 		sow := nextDOY(cur.AddDays(r.Range(4, 40)), r.Range(ci.SowLo, ci.SowHi))
